@@ -11,17 +11,25 @@ import StraxModel.Model.NetPath
      savers  number of savers per mailbox, joined by `,`
   `c13.wire <lazy> <caps> <savers>`
      answer `ok <mb_0>;<mb_1>;… B=<B> Blazy=<Blazy> Bpool=<B + 1>` with `<mb> = <cap>:<lazy>:<can_drive flags>`
-  `c13.rest <lazy> <caps> <savers> <N> <k> <pre> <post>`
+  `c13.rest <lazy> <caps> <savers> <pool> <N> <k> <pre> <post>`
+     pool = 1: worker pool (every stage sends futures, `Tid.resolve` resolves the futures somebody waits for);
      a source of N chunks; the pipeline runs under priority policy `pre` (`up` | `down` | `lag`) until the consumer
      has been handed k chunks, then the consumer is paused and everything else runs under `post` until nothing is
      enabled.  answer `ok wire=<mb_0>;<mb_1>;… pause=<source chunks computed at the pause> quiet=<… at quiescence>
-     rest=<1 if quiescent> B=<bound: B, in lazy mode Blazy>`
+     heaps=<messages buffered in every mailbox at the pause, joined by .>/<… at quiescence>
+     rest=<1 if quiescent> B=<bound: B, with a pool Bpool, in lazy mode Blazy>`
   `c13.path <allowLazy> <maxWorkers|-> <maxMessages> <targets> <loaders> <defs> <plugins> <savers>`   (arguments as `c06.wire`)
      wires the components with c06's `wire` (Model/Net.lean), finds the cheapest path source mailbox -> consumer subscription
      and evaluates the hypothesis and the bound of `dag_rest_bound` on it.
      answer `ok hyp=<pathOk 0/1> sole=<the consumer is the only reader of its subscription 0/1> B=<pathBound>
      lagR=<pathLagR> path=<mailbox names joined by `>`> lags=<lag of every link joined by ,>
      gated=<names (sorted, joined by ,) of the mailboxes whose sender satisfies `senderOk`, the hypothesis of dag_lazy_gate; - if none>`
+  `c13.netrest <allowLazy> <maxWorkers|-> <maxMessages> <targets> <loaders> <defs> <plugins> <savers> <k> <prio>`
+     the DYNAMICS of the net that `wire` builds (Model/Net.lean `step`, consumer = drain), as `c06.run` runs them: fixed
+     priorities (`prio` = thread names, highest first; the first enabled one runs) until the consumer has been handed k
+     messages, then the consumer is left out until no other thread is enabled.
+     answer `ok pause=<n_sent of every mailbox, creation order, joined by .> quiet=<… at quiescence> rest=<1 if no thread but
+     the consumer is enabled>`
 -/
 namespace Strax.Driver.C13
 open Strax Strax.Mailbox Strax.Backpressure
@@ -49,7 +57,9 @@ def wireDesc (w : Wiring) : String := ";".intercalate ((wire w 0).mbs.map showMb
 def showWire (w : Wiring) : String := s!"ok {wireDesc w} B={B w} Blazy={Blazy} Bpool={Bpool w}"
 
 /-- the bound that applies to this wiring -/
-def bound (w : Wiring) : Nat := if w.lazy then min Blazy (B w) else B w
+def bound (w : Wiring) : Nat := if w.lazy then min Blazy (B w) else if w.pool then Bpool w else B w
+
+def heapsOf (s : Net) : String := ".".intercalate (s.mbs.map fun mb => toString mb.heap.length)
 
 def chunks (n : Nat) (s : Net) : Nat := min s.emitted n
 
@@ -57,7 +67,7 @@ def rest (w : Wiring) (n k : Nat) (pre post : Policy) : String :=
   let fuel := 200 * (n + 2) * (w.caps.length + 2) * (w.caps.foldl max 1 + 1)
   let (s1, _) := runPolicy pre true (fun s => decide (k ≤ s.pulled)) fuel (wire w n)
   let (s2, q) := runPolicy post false (fun _ => false) fuel s1
-  s!"ok wire={wireDesc w} pause={chunks n s1} quiet={chunks n s2} rest={b01 (q && s2.quiescent)} B={bound w}"
+  s!"ok wire={wireDesc w} pause={chunks n s1} quiet={chunks n s2} heaps={heapsOf s1}/{heapsOf s2} rest={b01 (q && s2.quiescent)} B={bound w}"
 
 /-! ### c13.path -/
 open Strax.Net Strax.NetBP in
@@ -130,6 +140,49 @@ def pathWire (lazy mw mm targets loaders defs plugins savers : String) : Option 
                           savers := savers.map (fun (d, n) => (d, List.replicate n {})), targets := splitList targets "," }
   pure (pathOp (wire c { allowLazy := allowLazy, maxWorkers := mw, maxMessages := mm } .drain))
 
+/-! ### c13.netrest -/
+open Strax.Net Strax.NetBP in
+/-- run under fixed priorities (first enabled thread of `prio`) until `stop` holds or nothing in `prio` is enabled -/
+def runPrioUntil (net : Net.Net) (prio : List Nat) (stop : NState → Bool) : Nat → NState → NState × Bool
+  | 0, s => (s, false)
+  | f + 1, s =>
+    if stop s then (s, false) else
+    match prio.find? (fun t => (Net.step net s t).isSome) with
+    | none => (s, true)
+    | some t =>
+      match Net.step net s t with
+      | some s' => runPrioUntil net prio stop f s'
+      | none => (s, true)
+
+open Strax.Net Strax.NetBP in
+def netRest (net : Net.Net) (k : Nat) (names : List String) : String :=
+  let c := net.threads.length - 1
+  match net.threads[c]? with
+  | none => "err no-consumer"
+  | some main =>
+    match main.subs with
+    | [(mk, sk)] =>
+      let listed := names.filterMap fun n => net.threads.findIdx? (fun t => t.name == n)
+      let prio := listed ++ (List.range net.threads.length).filter fun t => !listed.contains t
+      let (s1, _) := runPrioUntil net prio (fun s => decide (k ≤ delivered s mk sk)) 1000000 (Net.init net)
+      let (s2, q) := runPrioUntil net (prio.filter (· != c)) (fun _ => false) 1000000 s1
+      let vec (s : NState) : String := ".".intercalate (s.mbs.map fun a => toString a.nSent)
+      s!"ok pause={vec s1} quiet={vec s2} rest={b01 q}"
+    | _ => "err consumer-subscriptions"
+
+open Strax.Net in
+def netRestWire (lazy mw mm targets loaders defs plugins savers k prio : String) : Option String := do
+  let allowLazy ← parseBool lazy
+  let mw ← if mw == "-" then some none else mw.toNat?.map some
+  let mm ← mm.toNat?
+  let loaders ← (splitList loaders ",").mapM C06.parseLoader
+  let defs ← (splitList defs ";").mapM C06.parseDef
+  let plugins ← (splitList plugins ",").mapM C06.parseKV
+  let savers ← (splitList savers ",").mapM C06.parseKV
+  let c : Components := { plugins := plugins, defs := defs, loaders := loaders,
+                          savers := savers.map (fun (d, n) => (d, List.replicate n {})), targets := splitList targets "," }
+  pure (netRest (wire c { allowLazy := allowLazy, maxWorkers := mw, maxMessages := mm } .drain) (← k.toNat?) (splitList prio ","))
+
 end Strax.Driver.C13
 
 namespace Strax.Driver
@@ -140,11 +193,14 @@ def handleC13 : List String → Option String
   | ["c13.wire", lazy, caps, savers] => do
     let w ← parseWiring lazy caps savers
     pure (showWire w)
-  | ["c13.rest", lazy, caps, savers, n, k, pre, post] => do
+  | ["c13.rest", lazy, caps, savers, pool, n, k, pre, post] => do
     let w ← parseWiring lazy caps savers
-    pure (rest w (← n.toNat?) (← k.toNat?) (← parsePolicy pre) (← parsePolicy post))
+    let pool ← parseBool pool
+    pure (rest { w with pool := pool } (← n.toNat?) (← k.toNat?) (← parsePolicy pre) (← parsePolicy post))
   | ["c13.path", lazy, mw, mm, targets, loaders, defs, plugins, savers] =>
     pathWire lazy mw mm targets loaders defs plugins savers
+  | ["c13.netrest", lazy, mw, mm, targets, loaders, defs, plugins, savers, k, prio] =>
+    netRestWire lazy mw mm targets loaders defs plugins savers k prio
   | _ => none
 
 end Strax.Driver
